@@ -44,12 +44,16 @@ FNEST = {"f", "q1", "q2", "lc", "rc", "a"}
 # every spelling (order x case) of the raw-f-string prefix, with a replacement field, and the
 # fr-order for contrast: fields of rf'..' / Rf'..' / fR'..' ... hold ordinary NAME tokens
 FPREFIX = {"rf", "rF", "Rf", "RF", "Fr", "q1", "lc", "rc"}   # the prefix symbols double as identifiers
+# identifiers spelled like soft keywords (match, type; case in thorough) or "_" are ordinary names: heads of attribute
+# chains and calls; a hard keyword (not) before a parenthesised primary is not part of it
+SOFTKW = {"smatch", "stype", "us", "knot", "dot", "lp", "rp"}
 
 
 def slices(tier):
     """(name, symbols, max symbols per text, max frame nesting)"""
     quick = [("strings", STRINGS, 5, 3), ("brackets", BRACKETS, 5, 3), ("words", WORDS, 5, 3),
-             ("chains", CHAINS, 6, 3), ("fnest", FNEST, 7, 4), ("fprefix", FPREFIX, 6, 3)]
+             ("chains", CHAINS, 6, 3), ("fnest", FNEST, 7, 4), ("fprefix", FPREFIX, 6, 3),
+             ("softkw", SOFTKW, 6, 3)]
     if tier == "quick":
         return quick
     return quick + [
@@ -59,6 +63,7 @@ def slices(tier):
         ("fstrings7", {"a", "f", "q1", "q2", "lc", "rc", "dot", "lb", "rb"}, 7, 4),
         ("prefixes", {"r", "b", "f", "u", "R", "B", "F", "q1", "q2", "t2", "a", "bs", "nl"}, 5, 3),
         ("layout", {"a", "ue", "tab", "sp", "nl", "semi", "cont", "hash", "eq", "lp", "rp", "t1"}, 6, 3),
+        ("softkw6", {"smatch", "scase", "stype", "us", "knot", "a", "dot", "lp", "rp", "sp"}, 6, 3),
     ]
 
 
@@ -247,12 +252,15 @@ def rope_view(beh):
     # clause 5: word and primary at every offset of every identifier
     try:
         w = worder.Worder(text)
+        kws = set(beh.get("kws", ()))
         done = False
         for s, e, cs in beh["names"]:
             for o in range(s, e):
                 got = (w.get_word_at(o), tuple(w.get_word_range(o)), w.get_primary_at(o))
                 want = (text[s:e], (s, e), text[cs:e])
                 for api, g, x in zip(("get_word_at", "get_word_range", "get_primary_at"), got, want):
+                    if api == "get_primary_at" and s in kws:
+                        continue     # a keyword is a token, not an identifier: no attribute chain to ask for
                     if g != x:
                         fails.append(("Word", api, "offset %d: spec %r rope %r" % (o, x, g)))
                         done = True
@@ -338,7 +346,7 @@ def main(tier):
     counts = {"names": 0, "regions": 0, "stmts": 0}
     samples = []
     # quick: all (small) models side by side; thorough: in groups, each compared before the next is generated
-    groups = [sl] if tier == "quick" else [sl[:6]] + [[x] for x in sl[6:]]
+    groups = [sl] if tier == "quick" else [sl[:7]] + [[x] for x in sl[7:]]
     for group in groups:
         out = {}
         threads = []
